@@ -53,23 +53,12 @@ def _replay_fn(bins):
     return fn
 
 
-def _nonreplay_sig(f):
-    # A well-formed probe that got no answer although the same input replays cleanly three times: the loss depends on the
-    # thread schedule, not on the bytes sent (see known_findings.json: descriptor-number reuse race between a worker
-    # thread closing a connection and the event loop registering the next accepted one).
-    s = f.get("sig", "")
-    m = f.get("msg", "")
-    if s.startswith("probe-") and any(w in m for w in ("timeout-without-reply", "closed-without-reply", "empty-reply", "probe(scgi): timeout", "closed-without-end-request", "timeout-without-end-request")):
-        return "race:probe-lost-schedule-dependent"
-    return None
-
-
 def run(tier, seed):
     return verif.standard(ID, tier, seed, specs(), units, RULE, level=LEVEL, fuzz_names=["c02_fuzz"],
                           floor={"fuzz-h": 20000, "fuzz-s": 20000, "fuzz-f": 20000},
                           assumptions=["probe encoders/de-framers in harness/common/vclient.h are correct",
                                        "upper bound on requests per byte stream: HTTP = occurrences of CRLFCRLF, SCGI = 1, FastCGI = occurrences of bytes 01 01"],
-                          replay_fn=_replay_fn, nonreplay_sig=_nonreplay_sig)
+                          replay_fn=_replay_fn)
 
 
 def replay(path):
